@@ -6,6 +6,7 @@
 From Coq Require Import List ZArith NArith.
 From MirV Require Import Base.W64 C11.Ast C11.BinIO C11.BinIOProofs C11.BinGrammarProofs C11.BinRoundtrip C11.BinWfDec
   C11.BinExamples C11.TempNames C11.BinWriteSets C10.TextOut C10.TextProofs.
+From MirV Require C11.LabelIdentity.
 Import ListNotations.
 Local Open Scope Z_scope.
 
@@ -86,3 +87,28 @@ Theorem bin_temp_counter_fresh : forall m it, In it (mod_items m) ->
   /\ bin_item_counter (norm_module m) = bin_item_counter m.
 Proof. exact bin_temp_counter_lemma. Qed.
 Print Assumptions bin_temp_counter_fresh.
+
+(* Label identity (C11/LabelIdentity.v): text and bytes name a label by number, in memory operands and lref items
+   point to the label insn.  The reader resolves EVERY mention of a number - operands, lref labels, label insns
+   inside a function and the labels that end a function (appended at `endfunc`) - through its module-wide table
+   (to_lab).  For every sequence of placements (trailing or not) and references of a module: all mentions of one
+   number are one object, and in a module that places every number it mentions each reference is attached to a
+   label insn of the module ("label references stay attached to their labels").  The harness checks exactly this
+   statement on the implementation through the API (fields LI0/LI1/LIM) and by loading, linking and interpreting the
+   module read back. *)
+Theorem bin_label_number_one_object : forall evs n id1 id2,
+  In (n, id1) (LabelIdentity.refs (LabelIdentity.run true evs)) -> In (n, id2) (LabelIdentity.placed (LabelIdentity.run true evs)) -> id1 = id2.
+Proof. exact LabelIdentity.label_number_one_object_l. Qed.
+Print Assumptions bin_label_number_one_object.
+
+Theorem bin_label_refs_attached : forall evs, LabelIdentity.closed evs ->
+  forall n id, In (n, id) (LabelIdentity.refs (LabelIdentity.run true evs)) -> In (n, id) (LabelIdentity.placed (LabelIdentity.run true evs)).
+Proof. exact LabelIdentity.label_refs_attached_l. Qed.
+Print Assumptions bin_label_refs_attached.
+
+(* A reader that makes the labels ending a function with create_label (no table entry) detaches a reference from its
+   label insn in a module that places every number it mentions. *)
+Theorem bin_trailing_create_label_refuted :
+  exists evs, LabelIdentity.closed evs /\ exists n id, In (n, id) (LabelIdentity.refs (LabelIdentity.run false evs)) /\ ~ In (n, id) (LabelIdentity.placed (LabelIdentity.run false evs)).
+Proof. exact LabelIdentity.trailing_create_label_detaches. Qed.
+Print Assumptions bin_trailing_create_label_refuted.
